@@ -7,6 +7,7 @@ import (
 	"io"
 	"log"
 	"os"
+	"runtime"
 	"sort"
 	"strings"
 	"testing"
@@ -181,6 +182,10 @@ func nz(a []uint32) []uint32 {
 	return a
 }
 
+// workerMemCap: a worker that has obtained more memory than this from the
+// system ends its batch early (16 workers share the machine).
+var workerMemCap uint64 = 1500 << 20
+
 func workerBatch(t *testing.T, job *Job, scs []*Scenario, emit func(any)) {
 	sum := &Summary{Kind: "summary", Counters: map[string]int64{}, PerScenario: map[string]int{}, Policies: map[string]int{}, ForeignSig: map[string]int{}}
 	start := time.Now()
@@ -196,6 +201,15 @@ func workerBatch(t *testing.T, job *Job, scs []*Scenario, emit func(any)) {
 		i := job.From + k*stride
 		if job.WallS > 0 && time.Since(start).Seconds() > job.WallS {
 			break
+		}
+		// abandoned goroutines of earlier runs accumulate: let the driver
+		// replace this process when it has grown too large
+		if k > 0 && k%8 == 0 {
+			var ms runtime.MemStats
+			runtime.ReadMemStats(&ms)
+			if ms.Sys > workerMemCap {
+				break
+			}
 		}
 		sc := pickScenario(scs, i)
 		if job.Scenario != "" {
